@@ -62,7 +62,13 @@ impl SourcePath {
                 let Some(name) = ancestor.file_name() else {
                     return Ok(absolute);
                 };
-                suffix = PathBuf::from(name).join(suffix);
+                // `join` with an empty suffix would append a trailing separator, and the
+                // identity of a file that does not exist yet must equal its later spelling.
+                suffix = if suffix.as_os_str().is_empty() {
+                    PathBuf::from(name)
+                } else {
+                    PathBuf::from(name).join(suffix)
+                };
                 let Some(parent) = ancestor.parent() else {
                     return Ok(absolute);
                 };
